@@ -277,6 +277,21 @@ func c12Render(out *c10Out, cs *c12Case, bounds []int64, want []uint64, h *veget
 		if clause, msg := c12CheckText(buf.String(), bounds, want); clause != "" {
 			viol("lib-text", clause, "text histogram: "+msg, buf.String(), "")
 		}
+		if len(bounds)%2 == 0 {
+			// one reporter used repeatedly (periodic reporting), the first time into an output that fails midway
+			bs, err := reportAgain(vegeta.NewHistogramReporter(h), 1+buf.Len()/3)
+			if err != nil {
+				viol("lib-text-reused-reporter", "text-shape", "NewHistogramReporter fails when used again: "+err.Error(), "", "")
+				return
+			}
+			out.count("text_reporters_used_repeatedly", 1)
+			for _, b := range bs {
+				if clause, msg := c12CheckText(string(b), bounds, want); clause != "" {
+					viol("lib-text-reused-reporter", clause, "text histogram of a reporter used before: "+msg, string(b), "")
+					break
+				}
+			}
+		}
 	}()
 	// Histogram.MarshalJSON, directly and through encoding/json
 	func() {
